@@ -1,8 +1,8 @@
 #!/bin/bash
-# usage: tools/try_seed.sh <patch.diff> <Cxx> [<Cyy> ...]  — apply a seeded change to /repo, run the checks, undo it
+# usage: tools/try_seed.sh <patch.diff> <Cxx> [<Cyy> ...]  — apply a seeded change to ${REPO_ROOT:-/repo}, run the checks, undo it
 patch=$1; shift
-cd /repo && git status --short | grep -q . && { echo "/repo not clean"; exit 2; }
-git -C /repo apply "$patch" || { echo "patch does not apply"; exit 2; }
-cd /verif
+cd ${REPO_ROOT:-/repo} && git status --short | grep -q . && { echo "${REPO_ROOT:-/repo} not clean"; exit 2; }
+git -C ${REPO_ROOT:-/repo} apply "$patch" || { echo "patch does not apply"; exit 2; }
+cd ${VERIF_ROOT:-/verif}
 for p in "$@"; do ./check $p --tier quick 2>&1 | grep -E "^\[|VIOLATION|KNOWN"; done
-git -C /repo checkout -- . && git -C /repo status --short
+git -C ${REPO_ROOT:-/repo} checkout -- . && git -C ${REPO_ROOT:-/repo} status --short
